@@ -12,6 +12,10 @@ ATOMS = [
     ("upper(t.s) = 'X'", 'table-func', 't', None, None),
     ("m.z = 'v'", 'model-eq', 'm', 'z', 'v'),
     ("t.e BETWEEN 1 AND 9", 'table', 't', 'e', None),
+    ("5 < t.b", 'table', 't', 'b', 5),
+    ("'abc' LIKE t.s", 'table', 't', 's', 'abc'),
+    ("t.s LIKE 'abc'", 'table', 't', 's', 'abc'),
+    ("2 >= t.f", 'table', 't', 'f', 2),
 ]
 # shapes over atom slots A B C: (template, which slots are top-level conjuncts)
 SHAPES = [
@@ -45,6 +49,127 @@ def build(shape, a, b, c, on_clause, using, model_first):
     all_atoms = [slots[k] for k in used]
     has_or = ' OR ' in tmpl
     return sql, top_atoms, all_atoms, has_or
+
+
+# ---- semantic equivalence of a pushed filter and a written conjunct: z3 over one symbolic row, SQL three-valued logic --------
+# values are ints (string constants get distinct codes); LIKE and functions are uninterpreted
+
+class Z3Cond:
+    def __init__(self):
+        import z3
+        self.z3 = z3
+        self.cols = {}
+        self.strs = {}
+        self.like = z3.Function('like', z3.IntSort(), z3.IntSort(), z3.BoolSort())
+        self.funcs = {}
+        self.queries = 0
+        self.solver_s = 0.0
+
+    def col(self, name):
+        z3 = self.z3
+        if name not in self.cols:
+            self.cols[name] = (z3.Bool('null_' + name), z3.Int('val_' + name))
+        return self.cols[name]
+
+    def scalar(self, n):
+        from mindsdb_sql.parser import ast as A
+        z3 = self.z3
+        if isinstance(n, A.Identifier):
+            return self.col(n.parts[-1].lower())
+        if isinstance(n, A.Constant):
+            if isinstance(n.value, bool) or not isinstance(n.value, (int, str)):
+                raise NotImplementedError(repr(n.value))
+            if isinstance(n.value, int):
+                return z3.BoolVal(False), z3.IntVal(n.value)
+            return z3.BoolVal(False), z3.IntVal(self.strs.setdefault(n.value, 100000 + len(self.strs)))
+        if isinstance(n, A.NullConstant):
+            return z3.BoolVal(True), z3.IntVal(0)
+        if isinstance(n, A.UnaryOperation) and n.op == '-':
+            nu, v = self.scalar(n.args[0])
+            return nu, -v
+        if isinstance(n, A.Function) and len(n.args) == 1 and not n.distinct:
+            f = self.funcs.setdefault(n.op.lower(), z3.Function('fn_' + n.op.lower(), z3.IntSort(), z3.IntSort()))
+            nu, v = self.scalar(n.args[0])
+            return nu, f(v)
+        raise NotImplementedError(type(n).__name__)
+
+    def cond(self, n):
+        """-> (unknown, true) of a condition"""
+        from mindsdb_sql.parser import ast as A
+        z3 = self.z3
+        if isinstance(n, A.BetweenOperation):
+            x, lo, hi = [self.scalar(a) for a in n.args]
+            return self._and((z3.Or(x[0], lo[0]), x[1] >= lo[1]), (z3.Or(x[0], hi[0]), x[1] <= hi[1]))
+        if isinstance(n, A.UnaryOperation) and n.op.lower() == 'not':
+            u, t = self.cond(n.args[0])
+            return u, z3.And(z3.Not(u), z3.Not(t))
+        if isinstance(n, A.BinaryOperation):
+            op = n.op.lower()
+            if op == 'and':
+                return self._and(self.cond(n.args[0]), self.cond(n.args[1]))
+            if op == 'or':
+                a, b = self.cond(n.args[0]), self.cond(n.args[1])
+                na, nb = (a[0], z3.And(z3.Not(a[0]), z3.Not(a[1]))), (b[0], z3.And(z3.Not(b[0]), z3.Not(b[1])))
+                u, f = self._and(na, nb)
+                return u, z3.And(z3.Not(u), z3.Not(f))
+            if op in ('is', 'is not'):
+                x = self.scalar(n.args[0])
+                if not isinstance(n.args[1], A.NullConstant):
+                    raise NotImplementedError('is')
+                return z3.BoolVal(False), (x[0] if op == 'is' else z3.Not(x[0]))
+            a, b = self.scalar(n.args[0]), self.scalar(n.args[1])
+            u = z3.Or(a[0], b[0])
+            rel = {'=': lambda: a[1] == b[1], '!=': lambda: a[1] != b[1], '<>': lambda: a[1] != b[1], '<': lambda: a[1] < b[1],
+                   '>': lambda: a[1] > b[1], '<=': lambda: a[1] <= b[1], '>=': lambda: a[1] >= b[1],
+                   'like': lambda: self.like(a[1], b[1]), 'not like': lambda: z3.Not(self.like(a[1], b[1]))}.get(op)
+            if rel is None:
+                raise NotImplementedError(op)
+            return u, z3.And(z3.Not(u), rel())
+        raise NotImplementedError(type(n).__name__)
+
+    def _and(self, a, b):
+        z3 = self.z3
+        fa, fb = z3.And(z3.Not(a[0]), z3.Not(a[1])), z3.And(z3.Not(b[0]), z3.Not(b[1]))
+        false = z3.Or(fa, fb)
+        true = z3.And(z3.Not(a[0]), a[1], z3.Not(b[0]), b[1])
+        return z3.And(z3.Not(false), z3.Not(true)), true
+
+    def equivalent(self, n1, n2):
+        """'yes' | 'no' | 'unknown': the two conditions have the same SQL truth value on every row"""
+        import time
+        z3 = self.z3
+        try:
+            a, b = self.cond(n1), self.cond(n2)
+        except NotImplementedError:
+            return 'unknown'
+        s = z3.Solver()
+        s.set('timeout', 20000)
+        s.add(z3.Or(a[0] != b[0], a[1] != b[1]))
+        t0 = time.perf_counter()
+        r = str(s.check())
+        self.solver_s += time.perf_counter() - t0
+        self.queries += 1
+        return {'unsat': 'yes', 'sat': 'no'}.get(r, 'unknown')
+
+
+ZC = None
+STATS = {'z3_queries': 0, 'z3_s': 0.0}
+
+
+def same_condition(pushed, written):
+    """is the pushed filter the written conjunct (same text apart from the table qualifier, or proved equivalent by z3)?"""
+    global ZC
+    t1 = ' '.join(str(pushed).split()).lower()
+    t2 = ' '.join(str(written).split()).lower().replace('t.', '')
+    if t1 == t2:
+        return 'yes'
+    if ZC is None:
+        ZC = Z3Cond()
+    q0, s0 = ZC.queries, ZC.solver_s
+    r = ZC.equivalent(pushed, written)
+    STATS['z3_queries'] += ZC.queries - q0
+    STATS['z3_s'] += ZC.solver_s - s0
+    return r
 
 
 def leaf(shape, a, b, c, on_clause, using, model_first):
@@ -82,10 +207,11 @@ def leaf(shape, a, b, c, on_clause, using, model_first):
         if at[1].startswith('table') and at[3] is not None and at[3] in got_rd:
             problems.append('table column %s became a model argument' % at[3])
     # filters pushed into the fetch: each must be a top-level conjunct on that table only
-    allowed = set()
+    from mindsdb_sql import parse_sql
+    allowed = []
     for at in top_atoms:
         if at[1] == 'table':
-            allowed.add(' '.join(at[0].replace('t.', '').split()).lower())
+            allowed.append(parse_sql('select 1 from t where ' + at[0], 'mindsdb').where)
     for f in fetch:
         w = f.query.where
         conj = []
@@ -98,9 +224,14 @@ def leaf(shape, a, b, c, on_clause, using, model_first):
                 conj.append(n)
         flat(w)
         for cnd in conj:
-            txt = ' '.join(str(cnd).split()).lower()
-            if txt not in allowed:
-                problems.append('fetch filter %r is not a top-level conjunct of WHERE on that table (allowed: %s)' % (txt, sorted(allowed)))
+            verdicts = [same_condition(cnd, w_) for w_ in allowed]
+            if 'yes' not in verdicts:
+                txt = ' '.join(str(cnd).split()).lower()
+                if 'unknown' in verdicts:
+                    info.setdefault('undecided', []).append(txt)
+                else:
+                    problems.append('fetch filter %r is not (equivalent to) a top-level conjunct of WHERE on that table (top-level table conjuncts: %s)'
+                                    % (txt, sorted(str(x) for x in allowed)))
         if 'm.' in str(f.query).lower() or ' x = 3' in str(f.query).lower():
             problems.append('a model condition is sent to the integration: %s' % f.query)
     # USING options reach the model unchanged apart from key case
@@ -117,17 +248,22 @@ def leaf(shape, a, b, c, on_clause, using, model_first):
     # the outer query: top-level model arguments neutralised; everything else still filters
     outer = [s for s in steps if isinstance(s, (S.QueryStep,))]
     if outer:
-        otxt = ' '.join(str(outer[-1].query).split()).lower()
-        for at in top_atoms:
-            if at[1] == 'model-eq' and (' %s = ' % at[3]) in otxt and ('0 = 0' not in otxt and '0=0' not in otxt):
-                problems.append('model argument %s still filters the outer result: %s' % (at[3], otxt))
-        for at in all_atoms:
-            if at not in top_atoms or at[1] != 'model-eq':
-                key = at[0].split()[0].split('.')[-1].replace('upper(', '')
-                if at[1] != 'model-eq' and key.strip(')').lower() not in otxt:
-                    problems.append('condition %r no longer filters the outer result: %s' % (at[0], otxt))
-                if at[1] == 'model-eq' and at not in top_atoms and (' %s = ' % at[3]) not in otxt and ('.%s = ' % at[3]) not in otxt:
-                    problems.append('non-top-level model condition %r was neutralised in the outer query: %s' % (at[0], otxt))
+        tmpl = SHAPES[shape][0]
+        sl = {'A': ATOMS[a], 'B': ATOMS[b], 'C': ATOMS[c]}
+        exp_where = tmpl.format(**{k: ('0 = 0' if (v in top_atoms and v[1] == 'model-eq') else v[0]) for k, v in sl.items()})
+        expected = parse_sql('select 1 from t where ' + exp_where, 'mindsdb').where
+        got = outer[-1].query.where
+        global ZC
+        if ZC is None:
+            ZC = Z3Cond()
+        q0, s0 = ZC.queries, ZC.solver_s
+        v = 'no' if got is None else ZC.equivalent(got, expected)
+        STATS['z3_queries'] += ZC.queries - q0
+        STATS['z3_s'] += ZC.solver_s - s0
+        if v == 'no':
+            problems.append('outer filter %r is not equivalent to the written WHERE with the consumed model arguments neutralised (%s)' % (str(got), exp_where))
+        elif v == 'unknown':
+            info.setdefault('undecided', []).append('outer: ' + str(got))
     info['plan'] = [repr(s)[:200] for s in plan.steps]
     return problems, info
 
@@ -137,4 +273,4 @@ def step(shape, a, b, c, on_clause, using, model_first):
     on_clause, using, model_first = PL.cb(on_clause), PL.cb(using), PL.cb(model_first)
     with PL.NoTracing():
         pr, info = leaf(shape, a, b, c, on_clause, using, model_first)
-    return len(pr)
+    return len(pr) + len(info.get('undecided', ()))
